@@ -105,6 +105,119 @@ func c10Snapshots(ctx *Ctx, i int, rng *rand.Rand) {
 	ctx.Emit(Case{I: i, Kind: "snapshots-" + driverNames[drv], Coq: coq, Desc: map[string]interface{}{"ops": desc}, Monitor: mon})
 }
 
+// ---------- (i-b) snapshots handed out by the pool (replies, node records) ----------
+
+type heldBalance struct {
+	what string
+	bal  *store.Balance
+	at   string
+	step int
+}
+type heldNode struct {
+	what string
+	node *store.Node
+	at   string
+	step int
+}
+
+func nodeFingerprint(n *store.Node) string {
+	return fmt.Sprintf("%s|%s|%v|%s|%d|%d|%v", n.ID, n.URI, n.IsHost, n.Kind, n.LastSeen.UnixNano(), n.BlockNumber, n.Payout)
+}
+
+// c10PoolSnapshots: balances in keep-alive replies, balances and node records read from the
+// stores: every value handed out is kept and re-read after every later pool operation (billing
+// keep-alives of nodes sharing a wallet, reconnects, account linking, withdrawals).
+func c10PoolSnapshots(ctx *Ctx, i int, rng *rand.Rand) {
+	drv := i % 2
+	cfg := worldCfg{Drv: drv, Price: "1000", IntervalNs: 60e9, Settle: true, Min: strp("-100000000")}
+	w := newWorld(cfg)
+	defer w.Close()
+	w.aliasAll()
+	for _, o := range []*POp{{Op: "connect", Node: "h1", Host: true, Kind: "geth"}, {Op: "connect", Node: "h2", Host: true, Kind: "geth", Payout: "w2"},
+		{Op: "connect", Node: "c1", Kind: "geth"}, {Op: "connect", Node: "c2", Kind: "geth"},
+		{Op: "addnode", Wallet: "w1", Node: "c1"}, {Op: "addnode", Wallet: "w1", Node: "c2"}, {Op: "addnode", Wallet: "w2", Node: "h2"}} {
+		w.applyPOp(o)
+	}
+	w.st.AddAccountBalance(store.Account(walletOf("w1")), big.NewInt(50000))
+	w.useRealClk = true
+	for _, c := range []string{"c1", "c2"} {
+		w.update(c, []string{"h1", "h2"}, 1)
+	}
+	w.useRealClk = false
+	var hb []heldBalance
+	var hn []heldNode
+	var mon []string
+	var desc []string
+	hold := func(what string, b *store.Balance, step int) {
+		if b != nil {
+			hb = append(hb, heldBalance{what, b, b.Credit.String() + "/" + b.Deposit.String(), step})
+		}
+	}
+	nodes := []string{"h1", "h2", "c1", "c2"}
+	steps := 10 + rng.Intn(15)
+	for k := 0; k < steps; k++ {
+		switch rng.Intn(8) {
+		case 0, 1, 2: // a billing keep-alive (the clock runs minutes ahead of the node's last check-in)
+			n := nodes[2+rng.Intn(2)]
+			w.mu.Lock()
+			w.clockNow = time.Now().Add(time.Duration(1+rng.Intn(9)) * time.Minute)
+			w.mu.Unlock()
+			resp, err := w.update(n, []string{"h1", "h2"}, uint64(k))
+			desc = append(desc, fmt.Sprintf("update %s -> %v", n, err))
+			if resp != nil {
+				hold("the balance in "+n+"'s keep-alive reply", resp.Balance, k)
+			}
+		case 3: // a host's keep-alive
+			n := nodes[rng.Intn(2)]
+			resp, err := w.update(n, nil, uint64(k))
+			desc = append(desc, fmt.Sprintf("update %s -> %v", n, err))
+			if resp != nil {
+				hold("the balance in "+n+"'s keep-alive reply", resp.Balance, k)
+			}
+		case 4: // reads
+			n := nodes[rng.Intn(4)]
+			if b, err := w.st.GetNodeBalance(store.NodeID(nodeIDOf(n))); err == nil {
+				c := b
+				hold("the store's balance of "+n, &c, k)
+			}
+			if b, err := w.bstore.GetAccountBalance(store.Account(walletOf("w1"))); err == nil {
+				c := b
+				hold("the balance of wallet w1", &c, k)
+			}
+			if nd, err := w.st.GetNode(store.NodeID(nodeIDOf(n))); err == nil {
+				hn = append(hn, heldNode{"the node record of " + n, nd, nodeFingerprint(nd), k})
+			}
+			if ps, err := w.st.NodePeers(store.NodeID(nodeIDOf(n))); err == nil {
+				for j := range ps {
+					hn = append(hn, heldNode{"a peer record of " + n, &ps[j], nodeFingerprint(&ps[j]), k})
+				}
+			}
+			desc = append(desc, "reads of "+n)
+		case 5: // reconnect (runs the connect-time balance check)
+			n := nodes[2+rng.Intn(2)]
+			_, err := w.connect(n, false, "geth", "", "")
+			desc = append(desc, fmt.Sprintf("connect %s -> %v", n, err))
+		case 6:
+			err := w.withdraw([]string{"w1", "w2"}[rng.Intn(2)])
+			desc = append(desc, fmt.Sprintf("withdraw -> %v", err))
+		default:
+			w.st.AddAccountBalance(store.Account(walletOf("w1")), big.NewInt(int64(1+rng.Intn(5000))))
+			desc = append(desc, "credit w1")
+		}
+		for _, h := range hb {
+			if got := h.bal.Credit.String() + "/" + h.bal.Deposit.String(); got != h.at && len(mon) == 0 {
+				mon = append(mon, fmt.Sprintf("c10-reply-snapshot-changed: %s, handed out at step %d, read %s (credit/deposit) then and reads %s after step %d: %s (%s driver)", h.what, h.step, h.at, got, k, desc[len(desc)-1], driverNames[drv]))
+			}
+		}
+		for _, h := range hn {
+			if got := nodeFingerprint(h.node); got != h.at && len(mon) == 0 {
+				mon = append(mon, fmt.Sprintf("c10-node-snapshot-changed: %s, handed out at step %d, changed after step %d: %s (%s driver)", h.what, h.step, k, desc[len(desc)-1], driverNames[drv]))
+			}
+		}
+	}
+	ctx.Emit(Case{I: i, Kind: "pool-snapshots-" + driverNames[drv], Desc: map[string]interface{}{"ops": desc, "balances_held": len(hb), "nodes_held": len(hn)}, Monitor: mon})
+}
+
 // ---------- (ii) a forced interleaving: two keep-alives of one node both read it first ----------
 
 type barrierStore struct {
@@ -420,6 +533,7 @@ func runC10Race(ctx *Ctx) {
 	c07Race(ctx, 9021, 1, rng)
 	c14Free(ctx, 9030, rng, 0, 0)
 	c14Free(ctx, 9031, rng, 8, 3)
+	c14FirstCalls(ctx, 9032, 200) // Remotes that were given no request-id source, first calls concurrent
 	// registry: connects, closes and peer requests racing
 	w := newWorld(worldCfg{Drv: drvMem, Price: "1000", IntervalNs: 60e9, Settle: true})
 	defer w.Close()
@@ -459,6 +573,12 @@ func runC10(ctx *Ctx) {
 	n := ctx.N(120, 3000)
 	forEachCase(ctx, n, func(i int, rng *rand.Rand) { c10Snapshots(ctx, i, rng) })
 	k := n
+	for c := 0; c < ctx.N(24, 600); c++ {
+		if ctx.Want(k) {
+			c10PoolSnapshots(ctx, k, ctx.Sub(k))
+		}
+		k++
+	}
 	for drv := 0; drv < 2; drv++ {
 		if ctx.Want(k) {
 			c10DoubleBilling(ctx, k, drv)
